@@ -164,8 +164,10 @@ func sessionMain(s *simrt.Sim, info *harness.RunInfo) {
 		useSim = true
 	}
 	var guard *harness.KeyGuard
+	var simSt *harness.SimStorage
 	if useSim {
 		st := harness.NewSimStorage(s, "session-store")
+		simSt = st
 		st.HideSizes = true
 		if faults {
 			// separate fault mixes: a failing Get ends the part of the run the model can follow, so
@@ -660,6 +662,19 @@ func sessionMain(s *simrt.Sim, info *harness.RunInfo) {
 		if op.delErr && (op.panicked != "" || op.obs.Err != "") {
 			// a failed Delete that the operation reported: the state of that session is unknown
 			s.Count("fault_session_delete_error_reported")
+			// whatever else is unknown now: a session that left the request under another id than the one
+			// it was presented under (Regenerate / Reset took effect) must not be held under both
+			if simSt != nil && !concurrent && op.present != "" && op.obs.ID == op.present && op.obs.EndID != "" && op.obs.EndID != op.present {
+				live := simSt.Live()
+				_, oldLive := live[op.present]
+				_, newLive := live[op.obs.EndID]
+				if newLive {
+					s.Count("probe_id_changed_in_request_with_failed_delete")
+				}
+				if oldLive && newLive {
+					s.Fail("C15.previous-id-alive-after-id-change", "op%d %s: the request reported a failed storage Delete (%s); the session came in as %q and left as %q, and the storage now holds a live record under both ids", op.id, op.route, op.obs.Err, op.present, op.obs.EndID)
+				}
+			}
 			stopped = true
 			return
 		}
